@@ -150,11 +150,19 @@ def real_stream(chk, rng, n, stats):
                 up = "../" * (d.count("/") + 1)
                 spec.append((d + "/" + nm, "l", rng.choice(["ROOT/out/keep.txt", up + "out/keep.txt", up + "out"])))
                 forced.append(d + "/" + nm)
+        dotdot_input = None
+        if rng.random() < 0.15 and not any(p.split("/")[0] in ("lk2",) for p, _, _ in spec):
+            # an input directory named through a symbolic link followed by "..": the kernel goes to the parent of the link's
+            # TARGET (out/zone here), a lexical reading would end at the bystander directory of the same name next to the link
+            spec += [("out/nest", "d", None), ("out/zone", "d", None), ("out/zone/u.txt", "f", "U"), ("out/zone/v", "f", "V"), ("out/zone/dd", "d", None),
+                     ("lk2", "l", "out/nest"), ("zone", "d", None), ("zone/w.txt", "f", "W"), ("zone/dd", "d", None)]      # "zone": a bystander
+            dotdot_input = "lk2/../zone"
         with Sandbox() as root:
             pipe.materialise(root, spec)
             snap0, ids = pipe.id_map(root)
             init = pipe.canon(snap0, ids, root)
-            args = list(forced)
+            args = list(forced) + ([dotdot_input] if dotdot_input else [])
+            stats["real_stream_dotdot_through_link_input"] = stats.get("real_stream_dotdot_through_link_input", 0) + (1 if dotdot_input else 0)
             stats["real_stream_explicit_outward_link"] = stats.get("real_stream_explicit_outward_link", 0) + len(forced)
             for d in inputs:
                 if forced and rng.random() < 0.5:
@@ -175,8 +183,13 @@ def real_stream(chk, rng, n, stats):
             link_dirs = {}
             for a in args:
                 full = os.path.join(root, a)
-                if os.path.islink(full) and os.path.isdir(full):
+                if os.path.isdir(full) and (os.path.islink(full) or ".." in a.split("/")):
                     link_dirs[a] = os.path.relpath(os.path.realpath(full), root)
+            # the directory an explicitly named entry lives in, as the kernel resolves it (the entry's own name is kept)
+            parent_real = {}
+            for a in args:
+                pr = os.path.relpath(os.path.realpath(os.path.join(root, os.path.dirname(a))), root)
+                parent_real[a] = "" if pr == "." else pr
             # symbolic links that lead to a directory count as directories (the gatherers follow links)
             dirlinks = {rel: os.path.relpath(os.path.realpath(os.path.join(root, rel)), root)
                         for rel, v in init.items() if v[0] == "l" and os.path.isdir(os.path.join(root, rel))}
@@ -199,11 +212,11 @@ def real_stream(chk, rng, n, stats):
         for a in args:
             full = os.path.join(root, a)
             kind = init.get(a, ("?",))[0]
-            target_is_dir = kind == "d" or (kind == "l" and a in link_dirs)
+            target_is_dir = kind == "d" or (a in link_dirs)
             if target_is_dir and not (mode == "directory" and "-r" not in argv):
                 ins.append(link_dirs.get(a, a))
             else:
-                ins.append(os.path.dirname(a))
+                ins.append(parent_real.get(a, os.path.dirname(a)))
         # the situation of F32 (fixed): path mode + --recursive + a symbolic link below an input directory that leads to a
         # directory outside it -- recursive gathering descends the link and the pipeline has to refuse the files behind it
         outward = [l for l, tgt in dirlinks.items() if any(inside(l, dd) for dd in ins)
